@@ -685,7 +685,8 @@ func writeEvidence(root string, p *Prop, tier string, seed uint64, seeds []uint6
 		"seeded_cases":              seededDone,
 		"nontrivial_runs":           st.Nontrivial,
 		"simulated_events":          st.Events,
-		"simulated_time_note":       "the library has no clock, timer or deadline; simulated time is the global event sequence number (one tick per transport operation, callback and schedule point)",
+		"simulated_time_note":       "the library has no clock, timer or deadline of its own: ordering uses the global event sequence number (one tick per transport operation, callback and schedule point); in addition clients let the bubble's fake clock advance between steps (fault kind client-idle, 50 ms - 1 h each) and the transport honours any deadline the server sets against that clock; simulated_clock_seconds is the fake-clock time that passed this way",
+		"simulated_clock_seconds":   float64(st.SimMs) / 1000,
 		"schedule_decisions":        st.Decisions,
 		"distinct_interleavings":    traces,
 		"fault_kinds_fired":         st.Faults,
